@@ -105,6 +105,19 @@ def gen_table(rng, kind=None):
     return {"kind": kind, "x": [float(v) for v in x], "y": y, "mono": mono, "curv": curv, "exact": noise == 0.0}
 
 
+def opposed_tables():
+    """options that contradict the shape of the data (the fit must satisfy the request, not the data), both
+    options at once"""
+    import random
+    out = []
+    for i, (kind, mono, curv) in enumerate((("inc_convex", 1, -1), ("dec_concave", -1, 1), ("inc_concave", 1, 1), ("dec_convex", -1, -1),
+                                            ("inc", -1, 0), ("inc_convex", 0, -1))):
+        t = gen_table(random.Random(700 + i), kind)
+        t.update({"mono": mono, "curv": curv, "exact": False, "kind": kind + "_opposed"})
+        out.append(t)
+    return out
+
+
 # ---- implementation side ------------------------------------------------------------------------------------
 def quiet():
     fd = os.open(os.devnull, os.O_WRONLY)
@@ -367,7 +380,7 @@ def run(ctx):
     else:
         corpus = core.corpus_cases(ID)
         evals = [c["case"] for c in corpus if c.get("kind") == "eval"] + [gen_eval_case(rng) for _ in range(ctx.n(60, 3000))]
-        fits = [c["case"] for c in corpus if c.get("kind") == "fit"] + [gen_table(rng) for _ in range(ctx.n(14, 500))]
+        fits = [c["case"] for c in corpus if c.get("kind") == "fit"] + opposed_tables() + [gen_table(rng) for _ in range(ctx.n(14, 500))]
         lookups = [c["case"] for c in corpus if c.get("kind") == "lookup"]
         for _ in range(ctx.n(8, 250)):
             lookups.append({"tables": {"tab%d" % i: gen_table(rng, rng.choice(["inc_convex", "dec_convex", "inc", "dec", "dec_concave", "inc_concave"]))
